@@ -264,3 +264,21 @@ def pops_and_loses(region, **kwargs):
 def pops_and_forwards(region, **kwargs):
     pixel = kwargs.pop("pixel_register", False)
     return _make_nodes(region, pixel_register=pixel, **kwargs), "pixel" if pixel else "gridline"
+
+
+_SUMMARY_CACHE = {}
+_EXACT_CACHE = {}
+
+
+def cached_by_summaries(points):
+    key = (points.size, float(points.mean()), float(points.min()), float(points.max()))
+    if key not in _SUMMARY_CACHE:
+        _SUMMARY_CACHE[key] = np.sort(points)
+    return _SUMMARY_CACHE[key]
+
+
+def cached_by_bytes(points):
+    key = (points.shape, points.tobytes())
+    if key not in _EXACT_CACHE:
+        _EXACT_CACHE[key] = np.sort(points)
+    return _EXACT_CACHE[key]
